@@ -54,6 +54,18 @@ theorem last_of_two_wins (S : Schema) (fields : List FieldDesc) (hd : IdsDistinc
   simp only [setSlot_setSlot, getSlot_setSlot _ _ _ hks, Slot.q]
   cases f.hasQ <;> simp
 
+/-- ... so an earlier, overridden occurrence of a singular scalar / string / bytes field leaves no trace at all
+    (C04: "stale" occurrences in a valid encoding do not change the value that is read) -/
+theorem stale_occurrence_irrelevant (S : Schema) (fields : List FieldDesc) (hd : IdsDistinct fields) (fuel : Nat)
+    (k : Nat) (f : FieldDesc) (hk : k < fields.length) (hf : fields[k] = f) (hl : f.label ≠ .repeated) (hg : f.group = none)
+    (hnm : f.type ≠ .message) (v1 v2 : Val) (h1 : CanonElem1 S f v1) (h2 : CanonElem1 S f v2)
+    (ty : Nat) (sl : List Slot) (u : List Unk) (hks : k < sl.length) :
+    parseAll S fuel fields [toScanned fields (elemRec S f v1), toScanned fields (elemRec S f v2)] (.mk ty sl u) =
+      parseAll S fuel fields [toScanned fields (elemRec S f v2)] (.mk ty sl u) := by
+  rw [last_of_two_wins S fields hd fuel k f hk hf hl hg hnm v1 v2 h1 h2 ty sl u hks]
+  simp only [parseAll]
+  rw [last_wins S fields hd fuel k f hk hf hl hg hnm v2 h2 ty sl u]
+
 /-- **repeated fields concatenate in arrival order**: an arriving element is appended to the array parsed so far -/
 theorem repeated_appends (S : Schema) (fields : List FieldDesc) (hd : IdsDistinct fields) (fuel : Nat)
     (k : Nat) (f : FieldDesc) (hk : k < fields.length) (hf : fields[k] = f) (hl : f.label = .repeated)
